@@ -36,6 +36,11 @@ CHECKS["C09"] = dict(
    text="Theorems in coq/theories/Props/C09.v over an abstract commutative ring, all strings (distinct in-range qubits, any storage order), coefficients, states and sizes: apply_exp/apply_exp_factor return psi*cosh(alpha) + (P_ops psi)*sinh(alpha) (empty string: the scalar e^alpha); P_ops is an involution; for EVERY truncation N and coefficient sequence c_j the operator series sum c_j (alpha P)^j psi equals (even part) psi + (odd part) P psi, i.e. the exponential series is the cosh/sinh series component-wise; exp(aP)exp(bP)=exp((a+b)P) from the addition formulas; exp(0P)=I; apply_exp_neg_i_dt refuses any coefficient whose imaginary part is not 0.0 and, for a real one (cosh(-ix)=cos x, sinh(-ix)=-i sin x, c*c+s*s=1), preserves inner products. The correspondence runs the three entry points through the real crate and compares with the model and with a Spec whose cosh/sinh/exp come from a Taylor series evaluated in exact integer fixed-point arithmetic inside Coq (libm-free); the libm values fed to the model are validated against the same series; group law and exp(0)=I are evaluated on the implementation's outputs.",
    note="libm accuracy for |alpha| > 60 (overflow region) is observed, not judged. The limit statement (partial sums converge to Coq's cosh/sinh over R) is not formalised; the component-wise series identity is.",
    design="6 C09")
+CHECKS["C10"] = dict(
+   technique="Coq proof (k steps = iterated step, additivity, k=0 identity; empty-Hamiltonian / out-of-range errors; inner-product preservation for real coefficients; second-order reversibility for non-commuting terms by telescoping; order-independence of the product for commuting terms with two sufficient conditions) + differential correspondence inside coqc with an in-Coq Taylor reference of exp(-iHt) and numerically evaluated commutator bounds",
+   text="Theorems in coq/theories/Props/C10.v over an abstract commutative ring, for Hamiltonians of any length: trotter_evolve with k steps is k successive steps (identity for k=0, additive in k); an empty Hamiltonian is the documented error at all three entry points and a term outside the register makes the sweep fail; with the libm facts of real-coefficient terms (cosh(-ix)=cos x, sinh(-ix)=-i sin x, c*c+s*s=1) every entry point preserves inner products for every k and both orders; the second-order step with -dt undoes the step with +dt for arbitrary (non-commuting) terms; for pairwise commuting terms the product of the term exponentials (each the true exponential by C09) is independent of the term order, and Z-only strings and strings with disjoint supports commute. The correspondence runs steps / evolve / reverse through the real crate, compares with the model, and measures the distance to exp(-iHt)|psi> (Taylor series through the closed-form Hamiltonian action, evaluated in Coq) against 0 for commuting families and against the commutator bounds otherwise.",
+   note="PARTIAL. (1) 'equals exp(-iHdt) when all terms commute' is proved as order-independence of the product of true term exponentials, not against a formal matrix exponential of the sum; exactness is additionally checked numerically (1e-9). (2) The rigorous product-formula bounds with constants are evaluated numerically (not formalised); the orders of accuracy are exercised at two step sizes. Float rounding not modelled.",
+   design="6 C10")
 NOT_YET = {}
 
 def main():
